@@ -108,6 +108,14 @@ class KernelSim(WorldBase):
             evs.append(["session", dict(target, role="first")])
             evs.append(["session", dict(target, role="off")])
             for h in range(cfg["history"]):
+                if g.random() < 0.2 and len(tflow["order"]) >= 2:
+                    # an earlier session that projected one rank onto another (records a rank match) and
+                    # was left in some state; only its after-effects on the target matter
+                    src, dst = g.sample(tflow["order"], 2)
+                    evs.append(["projhist", {"src": src, "dst": dst,
+                                             "end": g.choice(["abandon", "abandon", "raise", "normal"]),
+                                             "prefix": g.choice(["tgt", "hist"])}])
+                    continue
                 hflow = g.choice(flows)
                 s = self._gen_session(g, case, hflow, role="history",
                                       prefix=g.choice(["tgt", "tgt", "hist"]))
@@ -255,6 +263,8 @@ class KernelSim(WorldBase):
                 return self.ev_pairs(ev[1])
             if kind == "flat":
                 return self.ev_flat(ev[1])
+            if kind == "projhist":
+                return self.ev_projhist(ev[1])
             if kind == "conv":
                 return self.ev_conv(ev[1])
             if kind == "swaps":
@@ -583,6 +593,37 @@ class KernelSim(WorldBase):
                            f"in-memory trace {rank}-{typ} delivered {len(rows)} rows, the file holds "
                            f"{len(text.splitlines())} lines, or their content differs")
             self.probe("consumable_compared", ncmp)
+
+    def ev_projhist(self, a):
+        """history only (never judged): a session in which a fiber of rank `src` is projected onto rank `dst`"""
+        self.nsess += 1
+        self.fs.reset_counters()
+        self.fs.disarm()
+        f = Fiber([0, 1, 3], [1, 2, 3])
+        f.getRankAttrs().setId(a["src"])
+        z = Fiber()
+        z.getRankAttrs().setId(a["dst"])
+        status = "ok"
+        try:
+            Metrics.beginCollect(os.path.join(self.scratch, a.get("prefix", "hist")))
+            Metrics.trace(a["dst"])
+            n = 0
+            for c, (z_ref, v) in z << f.project(lambda c: c + 1, rank_id=a["dst"]):
+                z_ref += v
+                n += 1
+                if a["end"] == "raise" and n == 2:
+                    raise K.BodyAbort("history body raised")
+            if a["end"] == "normal":
+                Metrics.endCollect()
+        except K.BodyAbort:
+            status = "body-exception"
+            self.fault("body-exception")
+        except Exception as e:
+            status = f"exc:{type(e).__name__}"
+        if a["end"] != "normal":
+            self.fault("session-abandoned")
+        self.probe("history_with_rank_match")
+        return {"status": status}
 
     def ev_flat(self, a):
         """Z[n] = sum over (m,k) of A[m,k,n], iterating the flattened rank [m,k] (tuple coordinates)"""
